@@ -2,7 +2,7 @@
    A case is (chunks, observed); [observed] is what the implementation returned for
    concatStreamReader-style concatenation of the chunks, canonicalised by the harness:
    OVal v | OErr | OPanic.  Error messages are not compared (class only). *)
-From Eino Require Import Base.Util Model.Concat Model.ConcatMsg Model.ConcatOrder Model.ConcatUser Model.ConcatMsgMap.
+From Eino Require Import Base.Util Model.Concat Model.ConcatMsg Model.ConcatOrder Model.ConcatUser Model.ConcatMsgMap Model.ConcatStream.
 
 (* the registry of application-registered concat functions: the ones the harness registers *)
 #[local] Existing Instance harness_user.
@@ -132,7 +132,10 @@ Inductive ccase : Type :=
 | CaseMsg (api : N) (chunks : list (option msg)) (o : mobs)
 | CaseMsgList (chunks : list (list (option msg))) (o : lobs)
 | CaseMsgMap (chunks : list (list (string * mval))) (o : kobs)
-| CaseAny (chunks : list cval) (o : obs).   (* a stream of [any]: chunks of any dynamic type, nil included *)
+| CaseAny (chunks : list cval) (o : obs)    (* a stream of [any]: chunks of any dynamic type, nil included *)
+(* what the reader delivers, read errors included (Model/ConcatStream.v), through the stream-level entry points *)
+| CaseGenS (items : list (sitem cval)) (o : obs)
+| CaseMsgS (items : list (sitem (option msg))) (o : mobs).
 
 (* the same entry points with Go's map iteration made explicit (Model/ConcatOrder.v) and
    set to an order that differs from the one Model/Concat.v and Model/ConcatMsg.v use:
@@ -153,5 +156,7 @@ Definition bad (c : ccase) : bool :=
   | CaseMsgList chunks o => negb (lobs_eqb (lobs_of (msglist_stream chunks)) o)
   | CaseMsgMap chunks o => negb (kobs_eqb (kobs_of (mmap_stream chunks)) o)
   | CaseAny chunks o => negb (obs_eqb (obs_of (concat_stream_any chunks)) o)
+  | CaseGenS items o => negb (obs_eqb (obs_of (stream_entry concat_stream items)) o)
+  | CaseMsgS items o => negb (mobs_eqb (mobs_of (stream_entry msg_stream items)) o)
   end.
 Definition mismatches (cs : list ccase) : list nat := mismatches_from bad 0 cs.
